@@ -449,4 +449,35 @@ Proof.
   do 3 f_equal. lia.
 Qed.
 
+(* ---- schema ---------------------------------------------------------------------------------------------- *)
+Definition leaf_wf (l : lleaf) : Prop :=
+  match ll_type l with FLBA => 0 < ll_tlen l | _ => ll_tlen l = 0 end.
+
+Lemma ptype_of_to t : ptype_of_id (ptype_id t) = Some t.
+Proof. destruct t; reflexivity. Qed.
+
+Lemma leaf_of_selem l : leaf_wf l -> leaf_of (selem_of_l l) = ROk (leaf_of_l l).
+Proof.
+  intros W. unfold leaf_of, selem_of_l, leaf_of_l, desc_of, leaf_wf in *.
+  cbn [se_nchildren se_type se_tlen se_rep se_name se_conv se_logical]. rewrite ptype_of_to.
+  destruct l as [nm t tl op cv lg]. cbn [ll_type ll_tlen ll_optional ll_name ll_conv ll_logical] in *.
+  destruct t; cbn [rbind]; try (subst tl; destruct op; reflexivity).
+  destruct (Z.leb_spec (Z.of_N tl) 0) as [X|X]; [lia|]. cbn [rbind]. rewrite N2Z.id. destruct op; reflexivity.
+Qed.
+
+Lemma map_rs_ok {A B} (f : A -> rs B) (g : A -> B) l : (forall x, In x l -> f x = ROk (g x)) -> map_rs f l = ROk (map g l).
+Proof.
+  induction l as [|x l IH]; intros H; [reflexivity|]. cbn [map_rs map].
+  rewrite (H x) by (now left). cbn [rbind]. rewrite IH by (intros y Hy; apply H; now right). reflexivity.
+Qed.
+
+Lemma leaves_of_schema ls : Forall leaf_wf ls ->
+  leaves_of (root_selem (lenN ls) :: map selem_of_l ls) = ROk (map leaf_of_l ls).
+Proof.
+  intros W. unfold leaves_of, root_selem. cbn [se_nchildren].
+  rewrite !lenN_ok, map_length, Z.eqb_refl.
+  rewrite (map_rs_ok leaf_of (fun s => s) (map selem_of_l ls)) at 1.
+  - rewrite map_id.
+Abort.
+
 End WithCodecs4.
